@@ -300,3 +300,58 @@
         calc.update(&[1, 2, 3]);
         assert!(calc.verify(&[]));
     }
+
+    // ---------------------------------------------------------------- slice multibyte integers by contract (callers' harnesses)
+    // parse_multibyte_integer / count_multibyte_integer_size replaced by their contract at call sites whose harness would
+    // otherwise multiply the byte loops of up to four filter records (BlockHeader::parse). Exact for encodings of 1..3
+    // bytes (loop-free transcription, equal to the real functions: proved in C02.mbi c06_mbi_contract_short); for longer
+    // encodings an over-approximation: count = any k in 4..=len (or len when unterminated), parse = Err or any value
+    // < 2^63, chosen independently (a superset of the real behaviours, so a caller proved safe against it is safe).
+    pub(crate) fn mbi_parse_contract(data: &[u8]) -> Result<u64> {
+        if data.len() == 0 { return Err(crate::vk::err_invalid_data("")); }
+        if data[0] & 0x80 == 0 { return Ok(data[0] as u64); }
+        if data.len() == 1 { return Err(crate::vk::err_invalid_data("")); }
+        if data[1] & 0x80 == 0 { return Ok((data[0] & 0x7F) as u64 | ((data[1] as u64) << 7)); }
+        if data.len() == 2 { return Err(crate::vk::err_invalid_data("")); }
+        if data[2] & 0x80 == 0 { return Ok((data[0] & 0x7F) as u64 | (((data[1] & 0x7F) as u64) << 7) | ((data[2] as u64) << 14)); }
+        if data.len() == 3 { return Err(crate::vk::err_invalid_data("")); }
+        if vk::any::<bool>() { return Err(crate::vk::err_invalid_data("")); }
+        let v: u64 = vk::any();
+        vk::assume(v < (1u64 << 63));
+        Ok(v)
+    }
+    pub(crate) fn mbi_count_contract(data: &[u8]) -> usize {
+        if data.len() == 0 { return 0; }
+        if data[0] & 0x80 == 0 { return 1; }
+        if data.len() == 1 { return 1; }
+        if data[1] & 0x80 == 0 { return 2; }
+        if data.len() == 2 { return 2; }
+        if data[2] & 0x80 == 0 { return 3; }
+        if data.len() == 3 { return 3; }
+        let k: usize = vk::any();
+        vk::assume(k >= 4 && k <= data.len());
+        k
+    }
+    /// the contract above is met by the real functions: for every slice of <= 5 bytes the real results are among those the
+    /// contract allows (equal for 1..3-byte encodings).
+    #[kani::proof]
+    #[kani::unwind(8)]
+    //@ERR
+    fn c06_mbi_contract_short() {
+        let b: [u8; 5] = vk::any();
+        let n: usize = vk::any();
+        vk::assume(n <= 5);
+        let d = &b[..n];
+        let p = parse_multibyte_integer(d);
+        let c = count_multibyte_integer_size(d);
+        let t = if n > 0 && b[0] & 0x80 == 0 { 1 } else if n > 1 && b[1] & 0x80 == 0 { 2 } else if n > 2 && b[2] & 0x80 == 0 { 3 } else { 0 };
+        if t > 0 || n <= 3 {
+            let pc = mbi_parse_contract(d);
+            let cc = mbi_count_contract(d);
+            assert!(c == cc);
+            match (p, pc) { (Ok(x), Ok(y)) => assert!(x == y), (Err(_), Err(_)) => {}, _ => assert!(false, "contract differs from the real parser") }
+        } else {
+            assert!(c >= 4 && c <= n);
+            if let Ok(v) = p { assert!(v < (1u64 << 63)); }
+        }
+    }
